@@ -1,6 +1,8 @@
 import SoxrModel.Vr.Lemmas
 import SoxrModel.Vr.Frames
 import SoxrModel.Vr.Fade
+import SoxrModel.Vr.Engine
+import Mathlib.Tactic.Linarith
 import Mathlib.Tactic.Ring
 /-!
 # C16 — the variable-rate engine follows the requested ratio
@@ -165,6 +167,17 @@ theorem snap_sets_target (cfg : Cfg ρ) (s : St ρ) (rem : Nat) (r : ρ) (h0 : s
   rw [chunkStart_pending cfg s rem r h0 hr]
   exact ⟨rfl, rfl, rfl, h0⟩
 
+/-- **The snap sets BOTH streams.**  The chunk that finds the slew finished puts the fade-out stream on the target as
+    well (in the units of its own stage) and clears its slew increment too — whether or not a cross-fade is in progress
+    — so that a fade running at the end of a slew does not keep slewing on one side. -/
+theorem snap_sets_both_streams (cfg : Cfg ρ) (s : St ρ) (rem : Nat) (r : ρ) (h0 : s.slew = 0) (hr : s.newR = some r) :
+    (chunkStart cfg s rem).1.cur.step = cfg.num.stepOf r s.cur.mult ∧ (chunkStart cfg s rem).1.cur.ss = 0 ∧
+    (chunkStart cfg s rem).1.fo.step = cfg.num.stepOf r s.fo.mult ∧ (chunkStart cfg s rem).1.fo.ss = 0 ∧
+    (chunkStart cfg s rem).1.cur.clk = s.cur.clk ∧ (chunkStart cfg s rem).1.fo.clk = s.fo.clk ∧
+    (chunkStart cfg s rem).1.fade = s.fade := by
+  rw [chunkStart_pending cfg s rem r h0 hr]
+  exact ⟨rfl, rfl, rfl, rfl, rfl, rfl, rfl⟩
+
 /-- No chunk is longer than `AL(buf) >> 1 = 64` frames, and none outlasts the slew. -/
 theorem chunk_length (cfg : Cfg ρ) (s : St ρ) (rem : Nat) :
     (chunkStart cfg s rem).2 ≤ chunkMax ∧ (chunkStart cfg s rem).2 ≤ rem ∧
@@ -183,6 +196,27 @@ theorem immediate_when_zero (cfg : Cfg ρ) (s : St ρ) (r : ρ) :
     (setIoRatio cfg s r 0).cur.step = cfg.num.stepOf r (setIoRatio cfg s r 0).cur.mult ∧
     (setIoRatio cfg s r 0).defR = none :=
   ⟨(setIoRatio_zero_spec cfg s r).2.1, (setIoRatio_zero_spec cfg s r).1⟩
+
+/-- **The stage the first request starts on**: `octave < 0 ? −1 : min(octave, num_stages0 − 1)` with `num_stages0` the
+    number of half-band octaves the declared maximum needs (0 for a maximum `≤ 1`, where `num_stages = 1`); the stream is
+    a down-sampling one exactly on stages `≥ 0`, and its clock starts half a step in. -/
+theorem first_ratio_stage (cfg : Cfg ρ) (s : St ρ) (r x : ρ) (hd : s.defR = some x) :
+    (setIoRatio cfg s r 0).cur.sn = (if cfg.num.octave r < 0 then -1 else min (cfg.num.octave r) ((s.ns0 : Int) - 1)) ∧
+    (setIoRatio cfg s r 0).cur.isD = decide ((setIoRatio cfg s r 0).cur.sn ≥ 0) ∧
+    (setIoRatio cfg s r 0).cur.clk = INT s.cur.clk * two32 + FRAC (setIoRatio cfg s r 0).cur.step / 2 ∧
+    -1 ≤ (setIoRatio cfg s r 0).cur.sn ∧ ((setIoRatio cfg s r 0).cur.sn : Int) ≤ max ((s.ns0 : Int) - 1) (-1) := by
+  unfold setIoRatio
+  simp only [hd, Option.isSome_some, if_true, ne_eq, not_true_eq_false, if_false, enter, enterStream, setStep]
+  refine ⟨trivial, trivial, trivial, ?_, ?_⟩ <;> split <;> omega
+
+/-- with a declared maximum `≤ 1` (`num_stages0 = 0`) the engine starts on the up-sampling stage −1 whatever the octave
+    of the first ratio -/
+theorem first_ratio_stage_max_le_one (cfg : Cfg ρ) (s : St ρ) (r x : ρ) (hd : s.defR = some x) (h0 : s.ns0 = 0) :
+    (setIoRatio cfg s r 0).cur.sn = -1 ∧ (setIoRatio cfg s r 0).cur.isD = false := by
+  obtain ⟨h1, h2, _, h4, h5⟩ := first_ratio_stage cfg s r x hd
+  rw [h0] at h5
+  have : (setIoRatio cfg s r 0).cur.sn = -1 := by omega
+  exact ⟨this, by rw [h2, this]; decide⟩
 
 /-- … and **nothing is left outstanding, whatever was going on before**: a slew in progress or a pending snap is
     cancelled (`slew_len = 0`, `new_io_ratio = 0`, `step_step = 0` for both streams).  No hypothesis on `s`.
@@ -544,6 +578,172 @@ theorem process_delivers_at_most_requested (cfg : Cfg ρ) (s : St ρ) (olen0 n :
     dsimp only
     omega
 
+/-! ## 5b. Frame count at a constant ratio, the whole engine
+
+`Vr/Engine.lean`: `vr_input`, the half-band chain of `do_input_stage` with its preloads, `occupancy0`, the chunked `while`
+loop, the hand-back of consumed input to every FIFO, `vr_flush` — for an engine that has just been given its first
+ratio and whose increment lies in the octave of the stage it starts on (so that no stage switch is taken). -/
+
+/-- the first request is the first operation of the run -/
+theorem run_first_ratio (cfg : Cfg ρ) (s : St ρ) (r : ρ) (ops : List (Op ρ)) :
+    run cfg { st := s } ([.ratio r 0] ++ ops) = run cfg { st := setIoRatio cfg s r 0 } ops := by
+  simp [run, stepOp]
+
+/-- **N / ratio frames from the WHOLE ENGINE.**  `vr_create(max)`, a first `vr_set_io_ratio(r, 0)`, then ANY sequence of
+    `soxr_process` calls (any input block sizes, any output requests, totalling `N` input frames), then ANY flush calls
+    of which the last delivers fewer frames than it is asked for (the engine is drained).  If the increment the first
+    request stores lies in the octave of the stage it starts on (`InRange`: no stage switch will ever be asked for),
+    the total number `K` of frames delivered satisfies
+
+        (K − 1) · ρ  <  N  <  (K + 2) · ρ        i.e.   N/ρ − 2  <  K  <  N/ρ + 1
+
+    where `ρ = rateIn / 2³³` is the ratio the engine actually runs at (`rateIn`: the stored increment in the
+    stage-independent unit of `2⁻³³` input frames per output frame).  No stage switch is taken, no cross-fade mismatch
+    occurs.  Every stage: up-sampling (−1), stage 0, and every half-band stage `k ≥ 1`, where the chain delivers
+    `⌊N / 2^k⌋` samples of stage `k` after the flush — the floor is the second frame of the lower bound. -/
+theorem frames_full_engine (cfg : Cfg ρ) (mx r : ρ) (blocks : List (Nat × Nat)) (drain : List Nat) (o : Nat)
+    (hrange : InRange (setIoRatio cfg (init cfg mx) r 0).cur)
+    (hdr : (run cfg { st := init cfg mx } ([.ratio r 0] ++ (procOps blocks ++ flushOps drain ++ [.flush o]))).out <
+      (run cfg { st := init cfg mx } ([.ratio r 0] ++ (procOps blocks ++ flushOps drain))).out + o) :
+    let R := run cfg { st := init cfg mx } ([.ratio r 0] ++ (procOps blocks ++ flushOps drain ++ [.flush o]))
+    let rate := rateIn (setIoRatio cfg (init cfg mx) r 0).cur
+    (0 < R.out → ((R.out : Int) - 1) * rate < (totalIn blocks : Int) * 8589934592) ∧
+    (totalIn blocks : Int) * 8589934592 < ((R.out : Int) + 2) * rate ∧ R.nsw = 0 ∧ R.nmis = 0 := by
+  intro R rate
+  have hR : R = run cfg { st := setIoRatio cfg (init cfg mx) r 0 } (procOps blocks ++ flushOps drain ++ [.flush o]) :=
+    run_first_ratio cfg _ r _
+  have hrdef : rate = rateIn (setIoRatio cfg (init cfg mx) r 0).cur := rfl
+  clear_value R rate
+  rw [run_first_ratio, run_first_ratio] at hdr
+  obtain ⟨hsn, hisd, _, hlo, _⟩ := first_ratio_stage cfg (init cfg mx) r mx rfl
+  generalize hs0 : setIoRatio cfg (init cfg mx) r 0 = s0 at *
+  by_cases hneg : s0.cur.sn = -1
+  · -- up-sampling stage
+    have hd : s0.cur.isD = false := by rw [hisd, hneg]; decide
+    have hS : 0 < s0.cur.step ∧ s0.cur.step ≤ 8589934592 := by
+      unfold InRange at hrange; rw [hd] at hrange; simpa using hrange
+    have h0 := engU_init cfg mx r (by rw [hs0]; exact hneg) (by rw [hs0]; exact hS)
+    rw [hs0] at h0
+    obtain ⟨e1, e2, e3, e4⟩ := frames_engine_U cfg s0.cur.step (FRAC s0.cur.step / 2) s0 blocks drain o h0 hdr
+    rw [← hR] at e1 e2 e3 e4
+    have hrate : rate = s0.cur.step := by
+      rw [hrdef]
+      unfold rateIn rateScale posScale
+      rw [hd, hneg]; simp
+    have hA : 0 ≤ FRAC s0.cur.step / 2 ∧ FRAC s0.cur.step / 2 < s0.cur.step := by unfold FRAC two32; omega
+    rw [hrate]
+    unfold two32 at e1 e2
+    generalize s0.cur.step = S at *
+    generalize FRAC S / 2 = A0 at *
+    generalize (totalIn blocks : Int) = N at *
+    generalize (R.out : Int) = K at *
+    refine ⟨fun hK => ?_, ?_, e3, e4⟩
+    · have := e1 hK; nlinarith
+    · nlinarith
+  · -- down-sampling stage k ≥ 0
+    obtain ⟨k, hk⟩ : ∃ k : Nat, s0.cur.sn = (k : Int) := ⟨s0.cur.sn.toNat, by omega⟩
+    have hd : s0.cur.isD = true := by rw [hisd, hk]; simp
+    have hS : 2147483648 ≤ s0.cur.step ∧ s0.cur.step ≤ 4294967296 := by
+      unfold InRange at hrange; rw [hd] at hrange; simpa using hrange
+    have h0 := eng_init cfg mx r k (by rw [hs0]; exact hk) (by rw [hs0]; exact hS)
+    rw [hs0] at h0
+    obtain ⟨e1, e2, e3, e4⟩ := frames_engine_D cfg k s0.cur.step (FRAC s0.cur.step / 2) s0 blocks drain o h0 hdr
+    rw [← hR] at e1 e2 e3 e4
+    have hrate : rate = s0.cur.step * (2 ^ k * 4) := by
+      rw [hrdef]
+      unfold rateIn rateScale posScale
+      rw [hd, hk, show ((k : Int) + 1).toNat = k + 1 by omega, Int.pow_succ]
+      simp only [if_true]
+      ring
+    have hA : 0 ≤ FRAC s0.cur.step / 2 ∧ 2 * (FRAC s0.cur.step / 2) ≤ s0.cur.step := by unfold FRAC two32; omega
+    have hP : (0 : Int) < 2 ^ k := Int.pow_pos (by decide)
+    have hdiv := Int.mul_ediv_add_emod (totalIn blocks : Int) (2 ^ k)
+    have hm0 := Int.emod_nonneg (totalIn blocks : Int) (Int.ne_of_gt hP)
+    have hm1 := Int.emod_lt_of_pos (totalIn blocks : Int) hP
+    rw [hrate]
+    unfold two32 at e1 e2
+    generalize s0.cur.step = S at *
+    generalize FRAC S / 2 = A0 at *
+    generalize (totalIn blocks : Int) / 2 ^ k = N' at *
+    generalize (totalIn blocks : Int) % 2 ^ k = rem at *
+    generalize (totalIn blocks : Int) = N at *
+    generalize (2 : Int) ^ k = P at *
+    generalize (R.out : Int) = K at *
+    refine ⟨fun hK => ?_, ?_, e3, e4⟩
+    · have h1 := e1 hK
+      have : (K - 1) * (2 * S) < N' * 4294967296 := by nlinarith
+      have : (K - 1) * (2 * S) * (2 * P) < N' * 4294967296 * (2 * P) := by
+        apply Int.mul_lt_mul_of_pos_right this; omega
+      nlinarith
+    · have : N' * 4294967296 * (2 * P) ≤ (A0 + K * (2 * S) + S) * (2 * P) := by
+        apply Int.mul_le_mul_of_nonneg_right e2; omega
+      have hSP : 0 < S * P := Int.mul_pos (by omega) hP
+      nlinarith
+
+/-- … against a ratio `p/q` (input frames per output frame) that the stored increment represents exactly — every dyadic
+    ratio, e.g. — **within two frames of `N / ratio`**: `N/ratio − 2 < K < N/ratio + 1`. -/
+theorem frames_full_engine_exact_ratio (cfg : Cfg ρ) (mx r : ρ) (blocks : List (Nat × Nat)) (drain : List Nat) (o : Nat) (p q : Int)
+    (hq : 0 < q) (hpq : rateIn (setIoRatio cfg (init cfg mx) r 0).cur * q = p * 8589934592)
+    (hrange : InRange (setIoRatio cfg (init cfg mx) r 0).cur)
+    (hdr : (run cfg { st := init cfg mx } ([.ratio r 0] ++ (procOps blocks ++ flushOps drain ++ [.flush o]))).out <
+      (run cfg { st := init cfg mx } ([.ratio r 0] ++ (procOps blocks ++ flushOps drain))).out + o) :
+    let R := run cfg { st := init cfg mx } ([.ratio r 0] ++ (procOps blocks ++ flushOps drain ++ [.flush o]))
+    (0 < R.out → ((R.out : Int) - 1) * p < (totalIn blocks : Int) * q) ∧ (totalIn blocks : Int) * q < ((R.out : Int) + 2) * p := by
+  intro R
+  obtain ⟨h1, h2, _, _⟩ := frames_full_engine cfg mx r blocks drain o hrange hdr
+  generalize rateIn (setIoRatio cfg (init cfg mx) r 0).cur = rate at *
+  refine ⟨fun hK => ?_, ?_⟩
+  · have := h1 hK
+    have : ((R.out : Int) - 1) * rate * q < (totalIn blocks : Int) * 8589934592 * q := Int.mul_lt_mul_of_pos_right this hq
+    nlinarith
+  · have : (totalIn blocks : Int) * 8589934592 * q < ((R.out : Int) + 2) * rate * q := Int.mul_lt_mul_of_pos_right h2 hq
+    nlinarith
+
+/-- … and against a ratio `p/q` that the increment only approximates (`|rateIn·q − p·2³³| ≤ e`, the rounding of
+    `(int64)(io_ratio * step_mult + .5)` scaled to input time): at most one frame more on either side as long as the
+    accumulated rounding stays below a frame, `(K + 2)·e ≤ p·2³³`. -/
+theorem frames_full_engine_rounded_ratio (cfg : Cfg ρ) (mx r : ρ) (blocks : List (Nat × Nat)) (drain : List Nat) (o : Nat) (p q e : Int)
+    (hq : 0 < q) (_hp : 0 < p) (he1 : rateIn (setIoRatio cfg (init cfg mx) r 0).cur * q ≤ p * 8589934592 + e)
+    (he2 : p * 8589934592 ≤ rateIn (setIoRatio cfg (init cfg mx) r 0).cur * q + e) (he0 : 0 ≤ e)
+    (hrange : InRange (setIoRatio cfg (init cfg mx) r 0).cur)
+    (hdr : (run cfg { st := init cfg mx } ([.ratio r 0] ++ (procOps blocks ++ flushOps drain ++ [.flush o]))).out <
+      (run cfg { st := init cfg mx } ([.ratio r 0] ++ (procOps blocks ++ flushOps drain))).out + o)
+    (hres : ((run cfg { st := init cfg mx } ([.ratio r 0] ++ (procOps blocks ++ flushOps drain ++ [.flush o]))).out + 2 : Int) * e ≤
+      p * 8589934592) :
+    let R := run cfg { st := init cfg mx } ([.ratio r 0] ++ (procOps blocks ++ flushOps drain ++ [.flush o]))
+    (1 < R.out → ((R.out : Int) - 2) * p < (totalIn blocks : Int) * q) ∧ (totalIn blocks : Int) * q < ((R.out : Int) + 3) * p := by
+  intro R
+  obtain ⟨h1, h2, _, _⟩ := frames_full_engine cfg mx r blocks drain o hrange hdr
+  generalize rateIn (setIoRatio cfg (init cfg mx) r 0).cur = rate at *
+  have hR : (run cfg { st := init cfg mx } ([.ratio r 0] ++ (procOps blocks ++ flushOps drain ++ [.flush o]))).out = R.out := rfl
+  rw [hR] at hres
+  generalize hKdef : (R.out : Int) = K at *
+  generalize (totalIn blocks : Int) = N at *
+  have hK0 : (0 : Int) ≤ K := by omega
+  refine ⟨fun hK => ?_, ?_⟩
+  · have := h1 (by omega)
+    have : (K - 1) * rate * q < N * 8589934592 * q := Int.mul_lt_mul_of_pos_right this hq
+    have hk1 : (0 : Int) ≤ K - 1 := by omega
+    have : (K - 1) * (p * 8589934592) ≤ (K - 1) * (rate * q + e) := Int.mul_le_mul_of_nonneg_left he2 hk1
+    nlinarith
+  · have : N * 8589934592 * q < (K + 2) * rate * q := Int.mul_lt_mul_of_pos_right h2 hq
+    have hk2 : (0 : Int) ≤ K + 2 := by omega
+    have : (K + 2) * (rate * q) ≤ (K + 2) * (p * 8589934592 + e) := Int.mul_le_mul_of_nonneg_left he1 hk2
+    nlinarith
+
+set_option maxRecDepth 1000000 in
+/-- hypotheses and conclusion on a concrete run: maximum 8, ratio 6 (stage 2, increment `6·2²⁹` inside its octave),
+    1000 input frames in blocks of 400/600 with output requests of 30 and 500 (nothing comes out yet: stage 2 has not
+    been fed 480 samples), flushes of 100, 40 and 50 of which the last returns 26: 166 frames, `1000/6 = 166.7`,
+    `p/q = 6/1` exact, `(166 − 1)·6 < 1000 < (166 + 2)·6` -/
+example :
+    InRange (setIoRatio wcfg (init wcfg b8) b6 0).cur ∧
+    rateIn (setIoRatio wcfg (init wcfg b8) b6 0).cur * 1 = 6 * 8589934592 ∧
+    (run wcfg { st := init wcfg b8 } ([.ratio b6 0] ++ (procOps [(400, 30), (600, 500)] ++ flushOps [100, 40] ++ [.flush 50]))).out = 166 ∧
+    (run wcfg { st := init wcfg b8 } ([.ratio b6 0] ++ (procOps [(400, 30), (600, 500)] ++ flushOps [100, 40]))).out = 140 ∧
+    totalIn [(400, 30), (600, 500)] = 1000 := by
+  decide +kernel
+
 /-! ## 6. `soxr_set_io_ratio`: who accepts a new ratio -/
 
 /-- **Constant-rate engines refuse.**  An initialised resampler without sticky error whose engine has no
@@ -665,6 +865,10 @@ example : ∃ (n : ApiNum Nat) (a : ApiSt Nat) (r : Nat), a.sticky = false ∧ a
 
 example : [stagePreload (-1), stagePreload 0, stagePreload 1, stagePreload 2] = Gen.preloads := by decide
 example : [stageMult (-1), stageMult 0, stageMult 1, stageMult 2] = Gen.stepMults := by decide
+/-- the stage the first request starts on, for 18 (declared maximum, ratio) pairs RUN on the real `vr_create` /
+    `vr_set_io_ratio` by the generator (maxima ≤ 1, where `num_stages0 = 0 ≠ num_stages − 1`, included): the model's choice -/
+example : Gen.initialStages.all (fun c => (setIoRatio wcfg (init wcfg c.1) c.2.1 0).cur.sn == c.2.2) = true := by decide
+example : Gen.initialStages.length = 18 ∧ (Gen.initialStages.filter (fun c => c.2.2 == -1)).length ≥ 4 := by decide
 example : (two32 : Int) = (Gen.mult32 : Int) := by decide
 example : Gen.fadeLen = 2 * xfadeLen ∧ Gen.fadeLen % 2 = 0 := by decide
 
@@ -837,6 +1041,70 @@ example : ∃ s : St Nat, 1 ≤ s.cur.sn ∧ s.cur.isD = true ∧ s.cur.len = sh
   ⟨{ cur := { clk := 12345678901, step := 1000000000, ss := -7, sn := 2, isD := true, len := 312 },
      stages := #[{}, {}, {}, {}] }, by decide⟩
 
+/-- **The fade from stage 0 down to the up-sampling stage is aligned** — every such switch, in any chunk of any call, for
+    any slew: the new current stream (`poly_fir_fade_u` on stage −1) is the fade-out stream (`poly_fir_fade_d` on stage 0)
+    exactly (clock ×2, increment and slew increment ×4, `len` ×2), the fade-out stream runs first, and each pair it
+    delivers had its first sample inside the input, which is the condition of the current stream's iteration.  No
+    mismatch is counted in the chunk of the switch, the pair stays exact, and every later chunk of a fade between such a
+    pair is aligned too. -/
+theorem fade_alignment_down_to_upsampling (cfg : Cfg ρ) (olen0 : Nat) (l : LoopSt ρ) (h : OccInv l)
+    (hsw : doesSwitch (chunkStart cfg l.st (olen0 - l.od0)).1 = true)
+    (hdif : stageDif (chunkStart cfg l.st (olen0 - l.od0)).1 = -1) (hsn : l.st.cur.sn = 0) :
+    ((chunk cfg olen0 l).1.nmis = l.nmis ∧ Quad (chunk cfg olen0 l).1.st.cur (chunk cfg olen0 l).1.st.fo) ∧
+    (∀ (s : St ρ) (olen mn mx : Int), s.fade ≠ 0 → s.cur.isD = false → s.fo.isD = true → Quad s.cur s.fo →
+      (kernels s olen mn mx).mis = false ∧ Quad (kernels s olen mn mx).st.cur (kernels s olen mn mx).st.fo) :=
+  ⟨chunk_switch_to_upsampling_aligned cfg olen0 l h hsw hdif hsn, fun s olen mn mx a b c d => kernels_quad s olen mn mx a b c d⟩
+
+/-- `Quad` on a concrete pair: stage-0 stream at `at = 1.5`, `step = 0.6`, slewing, `len = 312`; the stage −1 stream reads
+    the same positions in half samples -/
+example : Quad { clk := 12884901888, step := 10307921512, ss := -28, len := 624, sn := -1, isD := false }
+    { clk := 6442450944, step := 2576980378, ss := -7, len := 312, sn := 0, isD := true } := by
+  unfold Quad; decide
+
+/-! ### 7b. Fade alignment is still false for all runs: the up-switch fade (F41)
+
+At an up-switch the new (coarser) current stream is the old one *floored*: `at >> 1`, `step >> 1`.  The fade-out stream
+is therefore ahead of it by `d₀ + (2j+1)·e` units of `2⁻³²` at the second sample of pair `j` (`d₀, e ∈ {0, 1}` the bits
+shifted out).  `poly_fir_fade_d` runs the current stream first and asks the fade-out stream for the same count; when the
+second sample of the last pair the current stream delivers lies within that many units below the end of the input, the
+fade-out stream has crossed it: `odone2 < odone`.  The coincidence needs the fraction of a clock to hit a window a few
+units wide, so random trajectories do not find it; the witness below was *solved for* (the increment of the second
+ratio is chosen so that `frac(at + 7·step) = 2³² − 1` in the new stage, the input so that this is the last pair). -/
+
+def b15 : Nat := 0x3FF8000000000000     -- 1.5
+def bF41 : Nat := 0x40016DB6DB700000    -- 2.1785714286379516 = (2³² + 383479223) / 2³¹
+
+/-- max ratio 4: ratio 1.5 (stage 0), 1000 frames requested from 3000 of input, then the input run dry (840 frames);
+    ratio `(2³² + 383479223)/2³¹` at once (an odd increment just above the octave of stage 0: the next chunk switches
+    up to stage 1), 8 more input frames, 600 frames requested -/
+def opsF41 : List (Op Nat) := [.ratio b15 0, .proc 3000 1000, .proc 0 5000, .ratio bF41 0, .proc 8 600]
+
+set_option maxRecDepth 1000000 in
+/-- **Negation of fade alignment on the current code (F41), concrete.**  In the last call — one stage switch, upwards —
+    the current stream delivers 4 pairs, the fade-out stream 3; afterwards the fade-out clock is negative.  Every call
+    before it is aligned.  (Replayed on the real code by the check: the asserts-on build aborts on `odone == odone2` in
+    exactly that call, the NDEBUG build equals the model field by field through it.) -/
+theorem fade_alignment_fails_up_switch :
+    (run wcfg { st := init wcfg b4 } opsF41).nmis = 1 ∧ (run wcfg { st := init wcfg b4 } opsF41).nsw = 1 ∧
+    (run wcfg { st := init wcfg b4 } opsF41).st.inc = true ∧ (run wcfg { st := init wcfg b4 } opsF41).st.fo.clk < 0 ∧
+    (run wcfg { st := init wcfg b4 } opsF41).st.cur.sn = 1 ∧ (run wcfg { st := init wcfg b4 } opsF41).st.fo.sn = 0 ∧
+    (run wcfg { st := init wcfg b4 } opsF41.dropLast).nmis = 0 ∧ (run wcfg { st := init wcfg b4 } opsF41.dropLast).nsw = 0 := by
+  decide +kernel
+
+/-- **"`odone == odone2` in every run from a fresh engine" is false** (the statement that was `Goal_fade_alignment`):
+    before the repair of F35 grossly (`Historical.pre_fix_not_fade_alignment_for_all_runs`), and on the current code
+    by the knife-edge witness above.  What does hold is proved: down-switch fades between down-sampling stages
+    (`down_switch_fade_aligned_in_loop`, `fade_alignment_chunk_partial`: exact doubling), and fades between stage 0 and the
+    up-sampling stage in the downward direction (`fade_alignment_down_to_upsampling`: exact too).  Up-switch fades and the
+    snap during a fade round the two streams separately: there alignment holds unless a clock is within the
+    accumulated rounding of an input sample boundary at the moment the input runs out. -/
+theorem not_fade_alignment_for_all_runs :
+    ¬ ∀ (mx : Nat) (ops : List (Op Nat)), (run wcfg { st := init wcfg mx } ops).nmis = 0 := by
+  intro h
+  have h1 := h b4 opsF41
+  have h2 := fade_alignment_fails_up_switch.1
+  omega
+
 /-! ## 8. A restarted stage is not read beyond what it holds (F36, repaired)
 
 `enter_new_stage` gives the new current stream `len = occupancy0 >> stage_num`.  A half-band stage entered by an up-switch
@@ -886,8 +1154,24 @@ theorem witnessF36_within :
 /-! ## Open statements (not proved; decided on sampled inputs by the falsifier of `checks/c16.py`) -/
 
 /-- The whole skeleton, not only the clock: a fresh engine at a constant ratio `r ≤ max`, fed `N` frames in any
-    blocks and then flushed until empty, delivers `N/r` frames within two.  (Needs the FIFO / `len` alignment
-    invariants of the half-band chain and of the flush preloads.) -/
+    blocks and then flushed until empty, delivers `N/r` frames within two.
+
+    PROVED (§5b, `Vr/Engine.lean`): `frames_full_engine` — for every `Num`, every declared maximum, every first ratio whose
+    increment lies in the octave of the stage it starts on (`InRange`), every blocking of input and output requests and
+    every flush sequence that ends drained: `N/ρ − 2 < K < N/ρ + 1` with `ρ` the ratio the engine actually runs at
+    (the stored increment in input time), on every stage (up-sampling, stage 0, half-band stages `k ≥ 1` through the
+    chain occupancies `fed` / `fedF` and the flush preloads), no stage switch, no fade mismatch;
+    `frames_full_engine_exact_ratio` — hence within two frames of `N·q/p` for every ratio `p/q` the increment represents
+    exactly; `frames_full_engine_rounded_ratio` — within three when it is only approximated and the accumulated rounding
+    stays below one frame.
+
+    What separates this from the statement below: (a) `InRange` is a hypothesis — that `octave` and `stepOf` of the same
+    double agree on the stage is a fact about the floating-point evaluation (`Num`), checked here on examples only;
+    (b) for an inexact ratio the bound proved is three frames below, two above (clock phase < 1, floor of `N / 2^k` < 1,
+    accumulated rounding of the increment < 1); the "within two" of the statement below would need the rounding term
+    quantified from `N < 2³¹` (it is at most `(K+2)·2⁻³³·rateScale`), not attempted; (c) only runs that start with the
+    first ratio on a fresh engine (after a ratio change the chain occupancies of the stages above the current one are
+    not in the closed form `fed`). -/
 def Goal_frames_full_engine : Prop :=
   ∀ (mx r : Nat) (blocks : List (Nat × Nat)) (drain : List Nat),
     let cfg := wcfg
@@ -902,16 +1186,5 @@ def Goal_frames_full_engine : Prop :=
     exactOctave r ≥ -6 → exactStepOf r 1 ≤ exactStepOf mx 1 → N < 2 ^ 31 →
     ∃ (p q : Int), 0 < q ∧ exactStepOf r (2 ^ 52) * q = p * 2 ^ 52 ∧
       (R.out : Int) * p - N * q ≤ 2 * p ∧ N * q - (R.out : Int) * p ≤ 2 * p
-
-/-- The C assertion `odone == odone2` for every run from a fresh engine.  False before the repair of F35
-    (`Historical.pre_fix_not_fade_alignment_for_all_runs`); since the repair no counterexample in the sampled
-    trajectories (the check would report one: the asserts-on build aborts, or the model counts a chunk the real code
-    does not).  Proved: down-switch fades of exactly doubled streams (`fade_alignment_down_partial`,
-    `fade_alignment_chunk_partial`) with the `occupancy0` hypothesis discharged by the loop invariant
-    (`occ_aligned_invariant`).  Open: up-switch fades, fades with stage −1, the snap during a fade (floor / separate
-    rounding: equality only to within one unit of `2⁻³²`, so alignment there rests on the clocks not straddling an
-    input sample within that unit). -/
-def Goal_fade_alignment : Prop :=
-  ∀ (mx : Nat) (ops : List (Op Nat)), (run wcfg { st := init wcfg mx } ops).nmis = 0
 
 end Soxr.Vr.C16
